@@ -1,1 +1,290 @@
-(* Props/C17.v -- stub, to be filled in *)
+(* Props/C17.v -- property theorems only: Theorem / exact lemma / Check (pins the statement) /
+   Print Assumptions.  C17: Newton iteration (src/newton.rs; model: Model/Newton.v).
+
+   All six solve methods are ONE loop [nloop step max_iter guess []] over a method-specific pass
+   [step] (scalar_step / sys_step / sysjac_step; see the three `..._is_nloop` examples); the user
+   function is an arbitrary [f : X -> res X] (it may panic) and NO law of the arithmetic is
+   assumed in the termination half.  [NOps] collects what differs between f64 and Cmplx.
+
+   Statements differ from DESIGN Appendix E where the model forces it: the model returns
+   [res (result * call points)], so "evals (newton ...)" reads "newton ... = Ok (r, evs) ->";
+   when the user function (or a guard of the step solver) panics the Rust code panics too and
+   there is nothing to bound.  The iterate sequence is [niter step k guess] (stopping tests
+   ignored).
+
+   Not proved (gap, see driver/c17.py UNPROVED): convergence beyond the affine and x^2 - c families;
+   float rounding (tie).  The "affine systems likewise" item of P2 is proved RELATIVE to the
+   soundness of the step solver (C01's solve_basic_sound, another package), which enters as an
+   explicit premise: newton_sys_affine_partial / newton_sysjac_affine_partial. *)
+From Coq Require Import List Arith Reals Lra ZArith QArith Qcanon.
+From OV Require Import Base.Panic Base.Arith Model.Vector Model.Matrix Model.Solve Model.Newton
+  Proofs.Matrix Proofs.NewtonLoop Proofs.Newton Proofs.NewtonJac Proofs.NewtonSys Proofs.NewtonReal Inst.QcInst.
+Import ListNotations.
+Local Open Scope nat_scope.
+
+Example newton_scalar_is_nloop : forall O c f,
+  newton_scalar O c f = nloop (scalar_step O (tol c) (delta c) f) (max_iter c) (guess c) [].
+Proof. reflexivity. Qed.
+Example newton_sys_is_nloop : forall O c f,
+  newton_sys O c f = nloop (sys_step O (tol c) (delta c) f) (max_iter c) (guess c) [].
+Proof. reflexivity. Qed.
+Example newton_sysjac_is_nloop : forall O c f jac,
+  newton_sysjac O c f jac = nloop (sysjac_step O (tol c) f jac) (max_iter c) (guess c) [].
+Proof. reflexivity. Qed.
+
+(* ---- concrete runs at Qc used as non-vacuity witnesses: x^2 - 2 from 1 (delta 1/8), three
+        passes: 1 -> 3/2 -> 17/12 -> 577/408; the third |dx| = 1/408 ---- *)
+Definition fq (x : AQ) : res AQ := Ok (x * x - q 2 1)%Qc.
+Definition cq (t : Qc) (n : nat) : ncfg (NR (NReal AQ)) (NA (NReal AQ)) := mkCfg t (q 1 8) n (q 1 1).
+
+(* Err after three passes with tol = 1/1000: nine calls *)
+Example newton_err_nonvacuous :
+  exists x evs, newton_scalar (NReal AQ) (cq (q 1 1000) 3) fq = Ok (NErr x, evs) /\
+                this x = (577 # 408)%Q /\ length evs = 9.
+Proof. do 2 eexists. split; [vm_compute; reflexivity|]. vm_compute. auto. Qed.
+
+(* Ok at the third pass with tol = 1/100 *)
+Example newton_ok_nonvacuous :
+  exists x evs, newton_scalar (NReal AQ) (cq (q 1 100) 5) fq = Ok (NOk x, evs) /\
+                this x = (577 # 408)%Q /\ length evs = 9.
+Proof. do 2 eexists. split; [vm_compute; reflexivity|]. vm_compute. auto. Qed.
+
+(* a 2 x 2 affine system, finite-difference and supplied Jacobian: Ok at the second pass *)
+Definition gq (v : list AQ) : res (list AQ) :=
+  let* x := rd v 0 in let* y := rd v 1 in
+  Ok [(q 2 1 * x + y - q 3 1)%Qc; (x + q 3 1 * y - q 5 1)%Qc].
+Definition jq (v : list AQ) : res (matrix AQ) := Ok (@mkM AQ [q 2 1; q 1 1; q 1 1; q 3 1] 2 2).
+Definition cq2 : ncfg (NR (NReal AQ)) (list (NA (NReal AQ))) := mkCfg (q 1 1000) (q 1 8) 5 [q 0 1; q 0 1].
+
+Example newton_sys_nonvacuous :
+  exists x evs, newton_sys (NReal AQ) cq2 gq = Ok (NOk x, evs) /\
+                map this x = [4 # 5; 7 # 5]%Q /\ length evs = 8.
+Proof. do 2 eexists. split; [vm_compute; reflexivity|]. vm_compute. auto. Qed.
+
+Example newton_sysjac_nonvacuous :
+  exists x evs, newton_sysjac (NReal AQ) cq2 gq jq = Ok (NOk x, evs) /\
+                map this x = [4 # 5; 7 # 5]%Q /\
+                length (filter is_CF evs) = 2 /\ length (filter is_CJ evs) = 2.
+Proof. do 2 eexists. split; [vm_compute; reflexivity|]. vm_compute. auto. Qed.
+
+(* ---------------- bounded work ---------------- *)
+Theorem newton_scalar_bounded : forall (O : NOps) (c : ncfg (NR O) (NA O)) (f : NA O -> res (NA O)) r evs,
+  newton_scalar O c f = Ok (r, evs) -> length evs <= 3 * max_iter c.
+Proof. intros O c f r evs H. exact (newton_scalar_bounded_lemma O c f r evs H). Qed.
+Check newton_scalar_bounded : forall (O : NOps) (c : ncfg (NR O) (NA O)) (f : NA O -> res (NA O)) r evs,
+  newton_scalar O c f = Ok (r, evs) -> length evs <= 3 * max_iter c.
+Print Assumptions newton_scalar_bounded.
+
+Theorem newton_scalar_err_calls : forall (O : NOps) (c : ncfg (NR O) (NA O)) (f : NA O -> res (NA O)) x evs,
+  newton_scalar O c f = Ok (NErr x, evs) -> length evs = 3 * max_iter c.
+Proof. intros O c f x evs H. exact (newton_scalar_err_calls_lemma O c f x evs H). Qed.
+Check newton_scalar_err_calls : forall (O : NOps) (c : ncfg (NR O) (NA O)) (f : NA O -> res (NA O)) x evs,
+  newton_scalar O c f = Ok (NErr x, evs) -> length evs = 3 * max_iter c.
+Print Assumptions newton_scalar_err_calls.
+
+Theorem newton_sys_bounded : forall (O : NOps) (c : ncfg (NR O) (list (NA O))) (f : list (NA O) -> res (list (NA O))) r evs,
+  newton_sys O c f = Ok (r, evs) -> length evs <= (length (guess c) + 2) * max_iter c.
+Proof. intros O c f r evs H. exact (newton_sys_bounded_lemma O c f r evs H). Qed.
+Check newton_sys_bounded : forall (O : NOps) (c : ncfg (NR O) (list (NA O))) (f : list (NA O) -> res (list (NA O))) r evs,
+  newton_sys O c f = Ok (r, evs) -> length evs <= (length (guess c) + 2) * max_iter c.
+Print Assumptions newton_sys_bounded.
+
+Theorem newton_sysjac_bounded : forall (O : NOps) (c : ncfg (NR O) (list (NA O))) (f : list (NA O) -> res (list (NA O))) jac r evs,
+  newton_sysjac O c f jac = Ok (r, evs) ->
+  length (filter is_CF evs) <= max_iter c /\ length (filter is_CJ evs) <= max_iter c.
+Proof. intros O c f jac r evs H. exact (newton_sysjac_bounded_lemma O c f jac r evs H). Qed.
+Check newton_sysjac_bounded : forall (O : NOps) (c : ncfg (NR O) (list (NA O))) (f : list (NA O) -> res (list (NA O))) jac r evs,
+  newton_sysjac O c f jac = Ok (r, evs) ->
+  length (filter is_CF evs) <= max_iter c /\ length (filter is_CJ evs) <= max_iter c.
+Print Assumptions newton_sysjac_bounded.
+
+(* ---------------- Err carries the last iterate; the test failed at every pass ---------------- *)
+Theorem newton_err_is_last : forall (X E : Type) (step : X -> res (X * bool * list E)) n x0 x evs,
+  nloop step n x0 [] = Ok (NErr x, evs) ->
+  niter step n x0 = Ok x /\
+  forall k, k < n -> exists xk x' e, niter step k x0 = Ok xk /\ step xk = Ok (x', false, e).
+Proof. intros X E step n x0 x evs H. exact (nloop_err step n x0 [] x evs H). Qed.
+Check newton_err_is_last : forall (X E : Type) (step : X -> res (X * bool * list E)) n x0 x evs,
+  nloop step n x0 [] = Ok (NErr x, evs) ->
+  niter step n x0 = Ok x /\
+  forall k, k < n -> exists xk x' e, niter step k x0 = Ok xk /\ step xk = Ok (x', false, e).
+Print Assumptions newton_err_is_last.
+
+(* ---------------- Ok x: the test held at the pass that produced x (and at none before) -------- *)
+Theorem newton_ok_test_held : forall (X E : Type) (step : X -> res (X * bool * list E)) n x0 x evs,
+  nloop step n x0 [] = Ok (NOk x, evs) ->
+  exists k xk e, k < n /\ niter step k x0 = Ok xk /\ step xk = Ok (x, true, e) /\
+    forall j, j < k -> exists xj x' e', niter step j x0 = Ok xj /\ step xj = Ok (x', false, e').
+Proof. intros X E step n x0 x evs H. exact (nloop_ok step n x0 [] x evs H). Qed.
+Check newton_ok_test_held : forall (X E : Type) (step : X -> res (X * bool * list E)) n x0 x evs,
+  nloop step n x0 [] = Ok (NOk x, evs) ->
+  exists k xk e, k < n /\ niter step k x0 = Ok xk /\ step xk = Ok (x, true, e) /\
+    forall j, j < k -> exists xj x' e', niter step j x0 = Ok xj /\ step xj = Ok (x', false, e').
+Print Assumptions newton_ok_test_held.
+
+(* the stopping test of a system pass, spelled out: || f(x) ||_inf <= tol, and the new iterate is
+   x - dx with dx the answer of solve_basic on the (finite-difference) Jacobian *)
+Theorem sys_pass_spec : forall (O : NOps) tl dl (f : list (NA O) -> res (list (NA O))) x x' b e,
+  sys_step O tl dl f x = Ok (x', b, e) ->
+  exists fv maxres J jev dx,
+    f x = Ok fv /\ norm_inf O fv = Ok maxres /\ jacobian O f x (emb O dl) = Ok (J, jev) /\
+    solve_basic J fv = Ok dx /\ length dx = length x /\
+    x' = zipw sub x dx /\ b = leb maxres tl /\ e = x :: jev.
+Proof. intros O tl dl f x x' b e H. exact (sys_step_inv O tl dl f x x' b e H). Qed.
+Check sys_pass_spec : forall (O : NOps) tl dl (f : list (NA O) -> res (list (NA O))) x x' b e,
+  sys_step O tl dl f x = Ok (x', b, e) ->
+  exists fv maxres J jev dx,
+    f x = Ok fv /\ norm_inf O fv = Ok maxres /\ jacobian O f x (emb O dl) = Ok (J, jev) /\
+    solve_basic J fv = Ok dx /\ length dx = length x /\
+    x' = zipw sub x dx /\ b = leb maxres tl /\ e = x :: jev.
+Print Assumptions sys_pass_spec.
+
+(* the stopping test of a scalar pass, spelled out: |f(x) / ((f(x+d) - f(x-d)) / (2 d))| <= tol *)
+Theorem scalar_pass_spec : forall (O : NOps) tl dl (f : NA O -> res (NA O)) x x' b e,
+  scalar_step O tl dl f x = Ok (x', b, e) ->
+  exists fp fm deriv fc dx,
+    f (add x (emb O dl)) = Ok fp /\ f (sub x (emb O dl)) = Ok fm /\
+    divr O (sub fp fm) (mul (two O) dl) = Ok deriv /\ f x = Ok fc /\ div fc deriv = Ok dx /\
+    x' = sub x dx /\ b = leb (mag O dx) tl.
+Proof. intros O tl dl f x x' b e H. exact (scalar_step_inv O tl dl f x x' b e H). Qed.
+Check scalar_pass_spec : forall (O : NOps) tl dl (f : NA O -> res (NA O)) x x' b e,
+  scalar_step O tl dl f x = Ok (x', b, e) ->
+  exists fp fm deriv fc dx,
+    f (add x (emb O dl)) = Ok fp /\ f (sub x (emb O dl)) = Ok fm /\
+    divr O (sub fp fm) (mul (two O) dl) = Ok deriv /\ f x = Ok fc /\ div fc deriv = Ok dx /\
+    x' = sub x dx /\ b = leb (mag O dx) tl.
+Print Assumptions scalar_pass_spec.
+
+(* ---------------- max_iter = 0 gives Err guess without a single call ---------------- *)
+Theorem newton_zero_iter : forall (X E : Type) (step : X -> res (X * bool * list E)) x0,
+  nloop step 0 x0 [] = Ok (NErr x0, []).
+Proof. intros X E step x0. exact (nloop_zero step x0). Qed.
+Check newton_zero_iter : forall (X E : Type) (step : X -> res (X * bool * list E)) x0,
+  nloop step 0 x0 [] = Ok (NErr x0, []).
+Print Assumptions newton_zero_iter.
+
+(* ---------------- the result depends on (tol, delta, max_iter, guess) and on the function only
+                    through its values at the call points ---------------- *)
+Theorem newton_scalar_local : forall (O : NOps) (c : ncfg (NR O) (NA O)) (f g : NA O -> res (NA O)) r evs,
+  newton_scalar O c f = Ok (r, evs) -> (forall p, In p evs -> f p = g p) ->
+  newton_scalar O c g = Ok (r, evs).
+Proof. intros O c f g r evs H Hin. exact (newton_scalar_local_lemma O c f g r evs H Hin). Qed.
+Check newton_scalar_local : forall (O : NOps) (c : ncfg (NR O) (NA O)) (f g : NA O -> res (NA O)) r evs,
+  newton_scalar O c f = Ok (r, evs) -> (forall p, In p evs -> f p = g p) ->
+  newton_scalar O c g = Ok (r, evs).
+Print Assumptions newton_scalar_local.
+
+Theorem newton_sys_local : forall (O : NOps) (c : ncfg (NR O) (list (NA O))) (f g : list (NA O) -> res (list (NA O))) r evs,
+  newton_sys O c f = Ok (r, evs) -> (forall p, In p evs -> f p = g p) ->
+  newton_sys O c g = Ok (r, evs).
+Proof. intros O c f g r evs H Hin. exact (newton_sys_local_lemma O c f g r evs H Hin). Qed.
+Check newton_sys_local : forall (O : NOps) (c : ncfg (NR O) (list (NA O))) (f g : list (NA O) -> res (list (NA O))) r evs,
+  newton_sys O c f = Ok (r, evs) -> (forall p, In p evs -> f p = g p) ->
+  newton_sys O c g = Ok (r, evs).
+Print Assumptions newton_sys_local.
+
+Theorem newton_sysjac_local : forall (O : NOps) (c : ncfg (NR O) (list (NA O))) (f g : list (NA O) -> res (list (NA O))) jf jg r evs,
+  newton_sysjac O c f jf = Ok (r, evs) ->
+  (forall p, In (CF p) evs -> f p = g p) -> (forall p, In (CJ p) evs -> jf p = jg p) ->
+  newton_sysjac O c g jg = Ok (r, evs).
+Proof. intros O c f g jf jg r evs H Hf Hj. exact (newton_sysjac_local_lemma O c f g jf jg r evs H Hf Hj). Qed.
+Check newton_sysjac_local : forall (O : NOps) (c : ncfg (NR O) (list (NA O))) (f g : list (NA O) -> res (list (NA O))) jf jg r evs,
+  newton_sysjac O c f jf = Ok (r, evs) ->
+  (forall p, In (CF p) evs -> f p = g p) -> (forall p, In (CJ p) evs -> jf p = jg p) ->
+  newton_sysjac O c g jg = Ok (r, evs).
+Print Assumptions newton_sysjac_local.
+
+(* ---------------- affine systems over a field: an exact root after at most two passes ----------
+   FULL statement wanted (DESIGN 7, C17 P2 "affine systems likewise"): for nonsingular M the
+   solvers return Ok of the exact root of Mx + c.  PROVED here: whenever the run does not panic
+   it returns Ok x with Mx + c = 0 componentwise, GIVEN the soundness statement of the step solver
+   (solve_basic_sound_stmt = C01's solve_basic_sound).  GAP: (i) that premise is another package's
+   theorem; (ii) absence of a zero-pivot panic for nonsingular M (C01's solve_complete) is not
+   used, hence the "= Ok (r, evs) ->" form.  The order enters only through |0| < |0| = false and
+   |0| <= tol.  (newton_sys_nonvacuous / newton_sysjac_nonvacuous above run such systems at Qc.) *)
+Theorem newton_sys_affine_partial : forall (O : NOps), FieldLaws (NA O) ->
+  forall (M : matrix (NA O)) (c0 : list (NA O)) (tl dl : NR O),
+  wf M -> rows M = cols M -> emb O dl <> zero ->
+  ltb (mag O zero) (mag O zero) = false -> leb (mag O zero) tl = true ->
+  solve_basic_sound_stmt O ->
+  forall n x0 r evs, length x0 = cols M -> 2 <= n ->
+  newton_sys O (mkCfg tl dl n x0) (fun p => Ok (aff O M c0 p)) = Ok (r, evs) ->
+  exists x, r = NOk x /\ is_root O M c0 x.
+Proof.
+  intros O FL M c0 tl dl HW Hsq Hd Hlt Hle Hs n x0 r evs L0 Hn H.
+  exact (newton_sys_affine_lemma O FL M c0 tl dl HW Hsq Hd Hlt Hle Hs n x0 r evs L0 Hn H).
+Qed.
+Check newton_sys_affine_partial : forall (O : NOps), FieldLaws (NA O) ->
+  forall (M : matrix (NA O)) (c0 : list (NA O)) (tl dl : NR O),
+  wf M -> rows M = cols M -> emb O dl <> zero ->
+  ltb (mag O zero) (mag O zero) = false -> leb (mag O zero) tl = true ->
+  solve_basic_sound_stmt O ->
+  forall n x0 r evs, length x0 = cols M -> 2 <= n ->
+  newton_sys O (mkCfg tl dl n x0) (fun p => Ok (aff O M c0 p)) = Ok (r, evs) ->
+  exists x, r = NOk x /\ is_root O M c0 x.
+Print Assumptions newton_sys_affine_partial.
+
+Theorem newton_sysjac_affine_partial : forall (O : NOps), FieldLaws (NA O) ->
+  forall (M : matrix (NA O)) (c0 : list (NA O)) (tl dl : NR O),
+  wf M -> rows M = cols M ->
+  ltb (mag O zero) (mag O zero) = false -> leb (mag O zero) tl = true ->
+  solve_basic_sound_stmt O ->
+  forall n x0 r evs, length x0 = cols M -> 2 <= n ->
+  newton_sysjac O (mkCfg tl dl n x0) (fun p => Ok (aff O M c0 p)) (fun _ => Ok M) = Ok (r, evs) ->
+  exists x, r = NOk x /\ is_root O M c0 x.
+Proof.
+  intros O FL M c0 tl dl HW Hsq Hlt Hle Hs n x0 r evs L0 Hn H.
+  exact (newton_sysjac_affine_lemma O FL M c0 tl dl HW Hsq Hlt Hle Hs n x0 r evs L0 Hn H).
+Qed.
+Check newton_sysjac_affine_partial : forall (O : NOps), FieldLaws (NA O) ->
+  forall (M : matrix (NA O)) (c0 : list (NA O)) (tl dl : NR O),
+  wf M -> rows M = cols M ->
+  ltb (mag O zero) (mag O zero) = false -> leb (mag O zero) tl = true ->
+  solve_basic_sound_stmt O ->
+  forall n x0 r evs, length x0 = cols M -> 2 <= n ->
+  newton_sysjac O (mkCfg tl dl n x0) (fun p => Ok (aff O M c0 p)) (fun _ => Ok M) = Ok (r, evs) ->
+  exists x, r = NOk x /\ is_root O M c0 x.
+Print Assumptions newton_sysjac_affine_partial.
+
+(* a run of the model on such a system at Qc: [[2,1],[1,3]] x + [-3,-5], Ok of the exact root (4/5, 7/5) *)
+Example newton_sys_affine_nonvacuous :
+  let M := @mkM AQ [q 2 1; q 1 1; q 1 1; q 3 1] 2 2 in
+  exists x evs, newton_sys (NReal AQ) cq2 (fun p => Ok (aff (NReal AQ) M [q (-3) 1; q (-5) 1] p)) = Ok (NOk x, evs) /\
+                map this x = [4 # 5; 7 # 5]%Q /\
+                map this (aff (NReal AQ) M [q (-3) 1; q (-5) 1] x) = [0 # 1; 0 # 1]%Q.
+Proof. intros M. do 2 eexists. split; [vm_compute; reflexivity|]. vm_compute. auto. Qed.
+
+(* ---------------- convergence over R: two families ----------------
+   (their two Print Assumptions come after both Checks, at the end of the file: the driver's
+   audit reads the axiom list of a theorem up to the next Print Assumptions output, and a Check
+   output in between would be read as an axiom name) *)
+Local Open Scope R_scope.
+
+Theorem newton_affine_exact : forall (a b tl dl : R) (n : nat) (x0 : R),
+  a <> 0 -> dl <> 0 -> 0 <= tl -> (2 <= n)%nat ->
+  exists evs, newton_scalar NRl (mkCfg tl dl n x0) (fun x => Ok (a * x + b)) = Ok (NOk (- b / a), evs).
+Proof. intros a b tl dl n x0 Ha Hd Ht Hn. exact (newton_affine_lemma a b tl dl Ha Hd n x0 Ht Hn). Qed.
+Check newton_affine_exact : forall (a b tl dl : R) (n : nat) (x0 : R),
+  a <> 0 -> dl <> 0 -> 0 <= tl -> (2 <= n)%nat ->
+  exists evs, newton_scalar NRl (mkCfg tl dl n x0) (fun x => Ok (a * x + b)) = Ok (NOk (- b / a), evs).
+
+Theorem newton_sqrt : forall (c tl dl : R) (n : nat) (x0 x : R) evs,
+  0 < c -> dl <> 0 -> 0 < x0 ->
+  newton_scalar NRl (mkCfg tl dl n x0) (fun x => Ok (x * x - c)) = Ok (NOk x, evs) ->
+  Rabs (x - R_sqrt.sqrt c) <= tl.
+Proof. intros c tl dl n x0 x evs Hc Hd H0 H. exact (newton_sqrt_lemma c tl dl Hc Hd n x0 x evs H0 H). Qed.
+Check newton_sqrt : forall (c tl dl : R) (n : nat) (x0 x : R) evs,
+  0 < c -> dl <> 0 -> 0 < x0 ->
+  newton_scalar NRl (mkCfg tl dl n x0) (fun x => Ok (x * x - c)) = Ok (NOk x, evs) ->
+  Rabs (x - R_sqrt.sqrt c) <= tl.
+
+Example newton_affine_exact_nonvacuous :
+  exists evs, newton_scalar NRl (mkCfg 0 1 2%nat 5) (fun x => Ok (2 * x + 6)) = Ok (NOk (- 6 / 2), evs).
+Proof. apply newton_affine_exact; try lra; auto. Qed.
+
+Example newton_sqrt_nonvacuous :
+  exists evs, newton_scalar NRl (mkCfg 0 1 1%nat 2) (fun x => Ok (x * x - 4)) = Ok (NOk 2, evs).
+Proof. exact newton_sqrt_witness. Qed.
+
+Print Assumptions newton_affine_exact.
+Print Assumptions newton_sqrt.
